@@ -34,6 +34,10 @@ class SimAbort(BaseException):
     self.detail = detail
 
 
+class ClosedFdInSelect(ValueError):
+  """what select.select() raises for a socket object that was closed"""
+
+
 class FakeTime(object):
   """Stands in for the `time` module inside pox modules."""
 
@@ -630,7 +634,8 @@ class Sim(object):
     if fd < 0:
       # what select.select() does for a closed socket object
       self.stats["select_on_closed"] += 1
-      raise ValueError("file descriptor cannot be a negative integer (-1)")
+      raise ClosedFdInSelect("file descriptor cannot be a negative integer "
+                             "(-1)")
     return self.fds[fd]
 
   def _fdkey(self, obj):
@@ -709,6 +714,12 @@ class Sim(object):
             hub.idle()
           except WouldBlock:
             break
+          except ClosedFdInSelect as e:
+            # nothing in recoco contains this: Scheduler.run (or the select
+            # thread) ends here and with it every task of the process
+            raise SimAbort("scheduler-loop-died", "select() was handed a "
+                           "closed socket (%s): the exception ends the "
+                           "scheduler / select loop for every task" % e)
     finally:
       self.horizon = None
     if self.now < t:
